@@ -1,8 +1,8 @@
 (* C15 — flat-integer interface of the model for the generic OCaml driver.
 
-   input  : nops op*
+   input  : gates nops op*         (gates = bit 0: ElasticQuotaEnableUpdateResourceKey, bit 1: ElasticQuotaGuaranteeUsage)
      op      = kind(0 add,1 update,2 delete) name npods (label ns)* payload [payload_old when kind=1]
-     payload = plabel isParent tree treeRoot force sw nsBad nns ns* strictBad nstrict key* vec(used) vec(min) vec(max)
+     payload = plabel isParent tree treeRoot force sw nsBad nns ns* strictBad nstrict key* vec(used) vec(min) vec(max) vec(guaranteed)
      vec     = k (key value)*
    observable : per op   accepted(0/1) enc_topo(state after)      (Spec.enc_topo)
      enc_topo = ninfos (name parent isParent force treeRoot tree min[3] max[3])*
@@ -38,10 +38,11 @@ Definition dec_payload (name : Z) (l : list Z) : quota * list Z :=
           let '(used, t4) := dec_vec t3 in
           let '(mn, t5) := dec_vec t4 in
           let '(mx, t6) := dec_vec t5 in
-          (mkQuota name plabel (zb isp) tree (zb troot) (zb force) sw (zb nsbad) nss (zb sbad) keys used mn mx, t6)
-      | [] => (mkQuota name plabel (zb isp) tree (zb troot) (zb force) sw (zb nsbad) nss false [] [] [] [], [])
+          let '(gu, t7) := dec_vec t6 in
+          (mkQuota name plabel (zb isp) tree (zb troot) (zb force) sw (zb nsbad) nss (zb sbad) keys used mn mx gu, t7)
+      | [] => (mkQuota name plabel (zb isp) tree (zb troot) (zb force) sw (zb nsbad) nss false [] [] [] [] [], [])
       end
-  | _ => (mkQuota name NONAME false 0 false false 0 false [] false [] [] [] [], [])
+  | _ => (mkQuota name NONAME false 0 false false 0 false [] false [] [] [] [] [], [])
   end.
 
 Definition dec_op (l : list Z) : req * list Z :=
@@ -53,13 +54,18 @@ Definition dec_op (l : list Z) : req * list Z :=
       else if kind =? 1 then
         let '(o, t3) := dec_payload name t2 in ((pods, Update o q), t3)
       else ((pods, Delete q), t2)
-  | _ => (([], Delete (mkQuota ROOT NONAME false 0 false false 0 false [] false [] [] [] [])), [])
+  | _ => (([], Delete (mkQuota ROOT NONAME false 0 false false 0 false [] false [] [] [] [] [])), [])
   end.
 
-Definition decode (inp : list Z) : list req := fst (decode_seq dec_op inp).
+Definition decode (inp : list Z) : (bool * bool) * list req :=
+  match inp with
+  | g :: t => ((Z.odd g, 2 <=? g), fst (decode_seq dec_op t))
+  | [] => ((false, false), [])
+  end.
 
 Definition run_case (inp : list Z) : list Z :=
-  flat_map (fun e => bz (fst e) :: enc_topo (snd e)) (trace init_topo (decode inp)).
+  let '(g, rs) := decode inp in
+  flat_map (fun e => bz (fst e) :: enc_topo (snd e)) (trace (init_topo g) rs).
 
 (* ---------- decoding the implementation's observable ---------- *)
 Definition dec_res (l : list Z) : reslist :=
@@ -70,8 +76,8 @@ Definition dec_info (l : list Z) : (Z * info) * list Z :=
   | n :: p :: isp :: force :: troot :: tree :: t =>
       let '(mn, t1) := take_n DIMS t in
       let '(mx, t2) := take_n DIMS t1 in
-      ((n, mkInfo p (zb isp) (zb force) tree (zb troot) (dec_res mn) (dec_res mx)), t2)
-  | _ => ((NONAME, mkInfo NONAME false false 0 false [] []), [])
+      ((n, mkInfo p (zb isp) (zb force) tree (zb troot) (dec_res mn) (dec_res mx) []), t2)
+  | _ => ((NONAME, mkInfo NONAME false false 0 false [] [] []), [])
   end.
 
 Definition dec_hier (l : list Z) : (Z * list Z) * list Z :=
@@ -86,27 +92,27 @@ Definition dec_bind (l : list Z) : (Z * Z) * list Z :=
   | _ => ((NONAME, NONAME), [])
   end.
 
-Definition dec_topo (l : list Z) : topo * list Z :=
+Definition dec_topo (g : bool * bool) (l : list Z) : topo * list Z :=
   let '(is, t1) := decode_seq dec_info l in
   let '(hs, t2) := decode_seq dec_hier t1 in
   let '(bs, t3) := decode_seq dec_bind t2 in
-  (mkTopo is hs bs, t3).
+  (mkTopo (fst g) (snd g) is hs bs, t3).
 
-Fixpoint dec_trace (k : nat) (l : list Z) : list (bool * topo) :=
+Fixpoint dec_trace (g : bool * bool) (k : nat) (l : list Z) : list (bool * topo) :=
   match k with
   | O => []
   | S k' => match l with
-            | acc :: t => let '(s, r) := dec_topo t in (zb acc, s) :: dec_trace k' r
+            | acc :: t => let '(s, r) := dec_topo g t in (zb acc, s) :: dec_trace g k' r
             | [] => []
             end
   end.
 
 (* the property decided on the implementation's observable; 0 = holds *)
 Definition prop_case (inp obs : list Z) : Z :=
-  let rs := decode inp in
+  let '(g, rs) := decode inp in
   match obs with
   | [-777777] => 99
-  | _ => prop_code rs (dec_trace (length rs) obs)
+  | _ => prop_code g rs (dec_trace g (length rs) obs)
   end.
 
 (* non-trivial: some request for a quota below a non-root parent was accepted and applied, and
@@ -130,9 +136,12 @@ Fixpoint nontrivial_from (s : topo) (rs : list req) (deep rej : bool) : bool :=
   end.
 
 Definition nontrivial_case (inp : list Z) : bool :=
-  nontrivial_from init_topo (decode inp) false false.
+  let '(g, rs) := decode inp in nontrivial_from (init_topo g) rs false false.
 
-Definition finding_sig (inp obs : list Z) : Z := 0.
+(* known finding 1: the only failing clause is 21 (a quota was deleted while pods were bound to
+   it through its namespaces), see findings/C15-delete-ignores-namespace-bound-pods.md *)
+Definition finding_sig (inp obs : list Z) : Z :=
+  if prop_case inp obs =? 21 then 1 else 0.
 
 Require Extraction.
 Require Import ExtrOcamlBasic.
